@@ -47,6 +47,8 @@ impl Housekeeper {
     }
 
     pub(crate) fn try_sync<T: InnerSync>(&self, cache: &T) -> bool {
+        #[cfg(mini_moka_verif)]
+        crate::verif::switch(crate::verif::Point::TrySyncBeforeCas);
         // Try to flip the value of sync_scheduled from false to true.
         match self.is_sync_running.compare_exchange(
             false,
@@ -55,14 +57,26 @@ impl Housekeeper {
             Ordering::Relaxed,
         ) {
             Ok(_) => {
+                #[cfg(mini_moka_verif)]
+                crate::verif::switch(crate::verif::Point::TrySyncAcquired);
                 let now = cache.now();
                 self.sync_after.set_instant(Self::sync_after(now));
 
                 cache.sync(MAX_SYNC_REPEATS);
 
+                #[cfg(mini_moka_verif)]
+                crate::verif::switch(crate::verif::Point::TrySyncBeforeRelease);
                 self.is_sync_running.store(false, Ordering::Release);
+                #[cfg(mini_moka_verif)]
+                crate::verif::switch(crate::verif::Point::TrySyncReleased);
                 true
             }
+            #[cfg(mini_moka_verif)]
+            Err(_) => {
+                crate::verif::switch(crate::verif::Point::TrySyncCasFailed);
+                false
+            }
+            #[cfg(not(mini_moka_verif))]
             Err(_) => false,
         }
     }
@@ -73,5 +87,17 @@ impl Housekeeper {
         // Assuming that `now` is current wall clock time, this should never fail at
         // least next millions of years.
         ts.expect("Timestamp overflow")
+    }
+}
+
+#[cfg(mini_moka_verif)]
+impl Housekeeper {
+    pub(crate) fn verif_is_sync_running(&self) -> bool {
+        self.is_sync_running.load(Ordering::Acquire)
+    }
+
+    /// Re-arms the periodical sync deadline relative to the given (mock) time.
+    pub(crate) fn verif_reset_sync_after(&self, now: Instant) {
+        self.sync_after.set_instant(Self::sync_after(now));
     }
 }
